@@ -79,6 +79,8 @@ package domain_matcher
 //@   anchorsonly
 //@   dyncalls noeffect
 //@   modifies *
+// an error recorded by AddSet (rule index beyond the limit, bad regex) is what Build reports, before building
+//@   at return 1 assert result == n.err && n.err != nil
 //@   at call builtin:append#1 assert a0 == n.validRegexpIndexes && a1[0] == i && len(n.regexp[i]) != 0
 //@   loop 1
 //@     exit $idx == len(n.regexp)
